@@ -103,26 +103,39 @@ Fixpoint nlist_eqb (a b : list N) : bool :=
   | _, _ => false
   end.
 
+(* is the handle of a storage operation dead in the specification state? *)
+Definition handle_dead (w : sworld) (o : op) : bool :=
+  match o with
+  | OStore so =>
+      match sop_handle so with
+      | Some h => match hget (s_hs w) h with Some e => negb (l_is_alive (s_life w) e) | None => false end
+      | None => false
+      end
+  | _ => false
+  end.
+
 (* acceptance by the specification (lifecycle allocator + plain-map storages):
-   (position, code): 0 accepted, 1 output differs, 2/3 invalid choice, 4 destroyed values differ *)
-Fixpoint saccept_z (w : sworld) (tr : list (op * wout * list Z)) (pos : Z) : Z * Z :=
+   (position, code, stale): code 0 accepted, 1 output differs, 2/3 invalid choice,
+   4 destroyed values differ; stale = the rejected operation went through a dead handle *)
+Fixpoint saccept_z (w : sworld) (tr : list (op * wout * list Z)) (pos : Z) : Z * Z * Z :=
   match tr with
-  | [] => ((-1)%Z, 0%Z)
+  | [] => ((-1)%Z, 0%Z, 0%Z)
   | (o, out, eff) :: tr' =>
       let '(w1, out1) := sstep w o (choices_of out) in
-      if negb (s_ok w1) then (pos, reject_code w out)
-      else if negb (wout_eqb_spec out out1) then (pos, 1%Z)
+      let stale := enc_bool (handle_dead w o) in
+      if negb (s_ok w1) then (pos, reject_code w out, stale)
+      else if negb (wout_eqb_spec out out1) then (pos, 1%Z, stale)
       else if negb (nlist_eqb (spec_drops (dec_effect_drops eff))
-                              (spec_drops (rev (cx_drops (se_cx (s_env w1)))))) then (pos, 4%Z)
+                              (spec_drops (rev (cx_drops (se_cx (s_env w1)))))) then (pos, 4%Z, stale)
       else saccept_z w1 tr' (pos + 1)%Z
   end.
 
 (* verdict on an observed transcript:
-   [ complete; acc_pos; acc_code; c01_direct; c02_direct ] *)
+   [ complete; acc_pos; acc_code; c01_direct; c02_direct; stale ] *)
 Definition verdict (h : list Z) (t : list (list Z)) : list Z :=
   let os := ops_until_drop (decode_history h) in
   let tr3 := pair_tr os t in
   let tr := map (fun x => (fst (fst x), snd (fst x))) tr3 in
   let complete := Nat.eqb (length tr) (length os) in
-  let '(p, c) := saccept_z (s_init_env true) tr3 0%Z in
-  [enc_bool complete; p; c; enc_bool (c01_direct tr); enc_bool (c02_direct tr)].
+  let '(p, c, st) := saccept_z (s_init_env true) tr3 0%Z in
+  [enc_bool complete; p; c; enc_bool (c01_direct tr); enc_bool (c02_direct tr); st].
